@@ -233,8 +233,14 @@ func genAnchoredOps(t *rapid.T, published bool, label string) ([]*operation.Anch
 		for try := 0; ; try++ {
 			tm = uint64(rapid.IntRange(0, 4).Draw(t, label+"-time"))
 			num = uint64(rapid.IntRange(0, 4).Draw(t, label+"-num"))
-			if rapid.IntRange(0, 6).Draw(t, label+"-huge") == 0 {
+			switch rapid.IntRange(0, 13).Draw(t, label+"-huge") {
+			case 0:
 				tm = rapid.Uint64Range(1<<33, 1<<50).Draw(t, label+"-hugeTime")
+			case 1:
+				// the whole range of the type: differences no longer fit a signed integer
+				tm = rapid.SampledFrom([]uint64{1 << 63, 1<<63 + 1000, 1<<64 - 1, 1<<64 - 2, 1 << 62}).Draw(t, label+"-hugestTime")
+			case 2:
+				num = rapid.SampledFrom([]uint64{1 << 63, 1<<63 + 1000, 1<<64 - 1, 1 << 32, 1<<31 + 1}).Draw(t, label+"-hugeNum")
 			}
 			if !used[[2]uint64{tm, num}] || try > 20 {
 				break
